@@ -613,6 +613,15 @@ CompletedByNamed ==
     /\ ~hist.cctEarly
     /\ \A cj \in hist.cut : ~CellAt(scn, cj[1], cj[2]).t.cp
 
+(* the element ENDS when the named task (or with 'any' the first task) is done: as soon as the driver knows that every  *)
+(* worker hosting a client of the named task (with 'any': some worker) is at the join point, while others are still   *)
+(* running, the broadcast for that element has happened.  (When the barrier opens doneW is reset: nothing to end.)    *)
+CompletedByEnds ==
+    LET e == drv.step + 1 IN
+    (drv.alive /\ e \in 1..NSteps(scn)) =>
+        /\ (CpClients(scn, e) # {} /\ \A c \in CpClients(scn, e) : scn.workerOf[c + 1] \in drv.doneW) => e \in hist.cct
+        /\ (AcpClients(scn, e) # {} /\ drv.doneW # {}) => e \in hist.cct
+
 (* completion never cuts short (or skips) tasks of elements that do not declare completed-by *)
 NoCrossElementCut ==
     /\ \A cj \in hist.cut \cup hist.skip : DeclaresCompletedBy(scn, ElemOf(cj[2]))
